@@ -34,7 +34,9 @@
  "assumes": [
   "count <= 2^30 entries (the real code indexes with int and computes (low+high)/2; more entries = 16 GiB of list would overflow); size <= 2^31",
   "well_formed (strictly ascending keys) is a universally quantified precondition; it enters as INSTANCES: at the lower bounds of the operation key and of the ghost view key and their predecessors, at the ghost index and its predecessor, at the last entry, at the cursor, and at every index probed by the binary search (ghost statement VERIF_GHOST_GET_REFCOUNT_EL_PROBE = assume of the instance at mid; sound because the list has not been written since the state the invariant speaks about); the lower bounds are arbitrary ghost values constrained only by these instances",
-  "needs the ghost anchor of hooks-pending/ds.diff in e2fsck/ea_refcount.c"
+  "the binary-search loop is closed by its invariant, applied by ghost statements at the top of the loop body exactly as a loop contract would be (assert on first arrival, continue from an arbitrary state of the invariant, assert invariant and strictly smaller window on the next arrival, stop): DFCC cannot attach a loop contract to a loop nested in the 'goto retry' loop, and plain unwinding of a binary search is exponential for SAT",
+  "after el = get_refcount_el(..) a ghost statement asserts that el is the entry at the lower bound of the key and re-assigns el that same address in typed form (points-to precision only)",
+  "needs the ghost anchors of hooks-pending/ds.diff in e2fsck/ea_refcount.c"
  ],
  "native": false
 }
@@ -75,7 +77,9 @@
  "assumes": [
   "count <= 2^30 entries (the real code indexes with int and computes (low+high)/2; more entries = 16 GiB of list would overflow); size <= 2^31",
   "well_formed (strictly ascending keys) is a universally quantified precondition; it enters as INSTANCES: at the lower bounds of the operation key and of the ghost view key and their predecessors, at the ghost index and its predecessor, at the last entry, at the cursor, and at every index probed by the binary search (ghost statement VERIF_GHOST_GET_REFCOUNT_EL_PROBE = assume of the instance at mid; sound because the list has not been written since the state the invariant speaks about); the lower bounds are arbitrary ghost values constrained only by these instances",
-  "needs the ghost anchor of hooks-pending/ds.diff in e2fsck/ea_refcount.c"
+  "the binary-search loop is closed by its invariant, applied by ghost statements at the top of the loop body exactly as a loop contract would be (assert on first arrival, continue from an arbitrary state of the invariant, assert invariant and strictly smaller window on the next arrival, stop): DFCC cannot attach a loop contract to a loop nested in the 'goto retry' loop, and plain unwinding of a binary search is exponential for SAT",
+  "after el = get_refcount_el(..) a ghost statement asserts that el is the entry at the lower bound of the key and re-assigns el that same address in typed form (points-to precision only)",
+  "needs the ghost anchors of hooks-pending/ds.diff in e2fsck/ea_refcount.c"
  ],
  "native": false
 }
@@ -117,12 +121,15 @@
  "assumes": [
   "count <= 2^30 entries (the real code indexes with int and computes (low+high)/2; more entries = 16 GiB of list would overflow); size <= 2^31",
   "well_formed (strictly ascending keys) is a universally quantified precondition; it enters as INSTANCES: at the lower bounds of the operation key and of the ghost view key and their predecessors, at the ghost index and its predecessor, at the last entry, at the cursor, and at every index probed by the binary search (ghost statement VERIF_GHOST_GET_REFCOUNT_EL_PROBE = assume of the instance at mid; sound because the list has not been written since the state the invariant speaks about); the lower bounds are arbitrary ghost values constrained only by these instances",
-  "needs the ghost anchor of hooks-pending/ds.diff in e2fsck/ea_refcount.c",
+  "the binary-search loop is closed by its invariant, applied by ghost statements at the top of the loop body exactly as a loop contract would be (assert on first arrival, continue from an arbitrary state of the invariant, assert invariant and strictly smaller window on the next arrival, stop): DFCC cannot attach a loop contract to a loop nested in the 'goto retry' loop, and plain unwinding of a binary search is exponential for SAT",
+  "after el = get_refcount_el(..) a ghost statement asserts that el is the entry at the lower bound of the key and re-assigns el that same address in typed form (points-to precision only)",
+  "needs the ghost anchors of hooks-pending/ds.diff in e2fsck/ea_refcount.c",
   "scenario 'room': count < size on entry (refcount_collapse and the resize are then unreachable: obligations 'never called'); the scenario count == size is unit ea_refcount_increment_grow (and see there for count == size with an entry dropped)",
   "memmove of the list by a ghost-index specification (C standard semantics at the ghost index, rest of the object havocked)",
   "the contract of the operation is stated by the harness (ASSUME precondition, CHECK postconditions) \u2014 no frame (assigns) obligations in this unit: enforcing the frame on the insertion paths exceeds the memory limit; the frame of the lookup paths is checked by ea_refcount_fetch / ea_refcount_decrement"
  ],
- "native": false
+ "native": false,
+ "backend": "cadical"
 }
 */
 /* VERIF-UNIT
@@ -162,12 +169,15 @@
  "assumes": [
   "count <= 2^30 entries (the real code indexes with int and computes (low+high)/2; more entries = 16 GiB of list would overflow); size <= 2^31",
   "well_formed (strictly ascending keys) is a universally quantified precondition; it enters as INSTANCES: at the lower bounds of the operation key and of the ghost view key and their predecessors, at the ghost index and its predecessor, at the last entry, at the cursor, and at every index probed by the binary search (ghost statement VERIF_GHOST_GET_REFCOUNT_EL_PROBE = assume of the instance at mid; sound because the list has not been written since the state the invariant speaks about); the lower bounds are arbitrary ghost values constrained only by these instances",
-  "needs the ghost anchor of hooks-pending/ds.diff in e2fsck/ea_refcount.c",
+  "the binary-search loop is closed by its invariant, applied by ghost statements at the top of the loop body exactly as a loop contract would be (assert on first arrival, continue from an arbitrary state of the invariant, assert invariant and strictly smaller window on the next arrival, stop): DFCC cannot attach a loop contract to a loop nested in the 'goto retry' loop, and plain unwinding of a binary search is exponential for SAT",
+  "after el = get_refcount_el(..) a ghost statement asserts that el is the entry at the lower bound of the key and re-assigns el that same address in typed form (points-to precision only)",
+  "needs the ghost anchors of hooks-pending/ds.diff in e2fsck/ea_refcount.c",
   "realloc / memmove of the list by ghost-index specifications (C standard semantics at the ghost index, rest of the object havocked)",
-  "scenario 'grow': count == size on entry and refcount_collapse (replaced by its contract, see ea_collapse_B4) drops nothing; the complementary outcome ('shrink': an entry was dropped, the code jumps back to 'retry' and starts over on the collapsed list, which has room) exceeds the memory limit as one query; it is the composition of a lookup (frame: ea_refcount_fetch), the collapse contract and the 'room' scenario, and is exercised with the real code on small lists by ea_sequence_B; the 'goto retry' back edge is then never taken (unwinding assertion)",
+  "scenario 'grow': count == size on entry and refcount_collapse (replaced by its contract, see ea_collapse_B4) drops nothing; the complementary outcome ('shrink': an entry was dropped, the code jumps back to 'retry' and starts over on the collapsed list, which has room) exceeds the memory limit as one query; it is the composition of a lookup (frame: ea_refcount_fetch), the collapse contract and the 'room' scenario, and is exercised with the real code on small lists by ea_full_list_B3; the 'goto retry' back edge is then never taken (unwinding assertion)",
   "the contract of the operation is stated by the harness (ASSUME precondition, CHECK postconditions) \u2014 no frame (assigns) obligations in this unit: enforcing the frame on the insertion paths exceeds the memory limit; the frame of the lookup paths is checked by ea_refcount_fetch / ea_refcount_decrement"
  ],
- "native": false
+ "native": false,
+ "backend": "cadical"
 }
 */
 /* VERIF-UNIT
@@ -207,12 +217,15 @@
  "assumes": [
   "count <= 2^30 entries (the real code indexes with int and computes (low+high)/2; more entries = 16 GiB of list would overflow); size <= 2^31",
   "well_formed (strictly ascending keys) is a universally quantified precondition; it enters as INSTANCES: at the lower bounds of the operation key and of the ghost view key and their predecessors, at the ghost index and its predecessor, at the last entry, at the cursor, and at every index probed by the binary search (ghost statement VERIF_GHOST_GET_REFCOUNT_EL_PROBE = assume of the instance at mid; sound because the list has not been written since the state the invariant speaks about); the lower bounds are arbitrary ghost values constrained only by these instances",
-  "needs the ghost anchor of hooks-pending/ds.diff in e2fsck/ea_refcount.c",
+  "the binary-search loop is closed by its invariant, applied by ghost statements at the top of the loop body exactly as a loop contract would be (assert on first arrival, continue from an arbitrary state of the invariant, assert invariant and strictly smaller window on the next arrival, stop): DFCC cannot attach a loop contract to a loop nested in the 'goto retry' loop, and plain unwinding of a binary search is exponential for SAT",
+  "after el = get_refcount_el(..) a ghost statement asserts that el is the entry at the lower bound of the key and re-assigns el that same address in typed form (points-to precision only)",
+  "needs the ghost anchors of hooks-pending/ds.diff in e2fsck/ea_refcount.c",
   "scenario 'room': count < size on entry (refcount_collapse and the resize are then unreachable: obligations 'never called'); the scenario count == size is unit ea_refcount_store_grow (and see there for count == size with an entry dropped)",
   "memmove of the list by a ghost-index specification (C standard semantics at the ghost index, rest of the object havocked)",
   "the contract of the operation is stated by the harness (ASSUME precondition, CHECK postconditions) \u2014 no frame (assigns) obligations in this unit: enforcing the frame on the insertion paths exceeds the memory limit; the frame of the lookup paths is checked by ea_refcount_fetch / ea_refcount_decrement"
  ],
- "native": false
+ "native": false,
+ "backend": "cadical"
 }
 */
 /* VERIF-UNIT
@@ -252,12 +265,15 @@
  "assumes": [
   "count <= 2^30 entries (the real code indexes with int and computes (low+high)/2; more entries = 16 GiB of list would overflow); size <= 2^31",
   "well_formed (strictly ascending keys) is a universally quantified precondition; it enters as INSTANCES: at the lower bounds of the operation key and of the ghost view key and their predecessors, at the ghost index and its predecessor, at the last entry, at the cursor, and at every index probed by the binary search (ghost statement VERIF_GHOST_GET_REFCOUNT_EL_PROBE = assume of the instance at mid; sound because the list has not been written since the state the invariant speaks about); the lower bounds are arbitrary ghost values constrained only by these instances",
-  "needs the ghost anchor of hooks-pending/ds.diff in e2fsck/ea_refcount.c",
+  "the binary-search loop is closed by its invariant, applied by ghost statements at the top of the loop body exactly as a loop contract would be (assert on first arrival, continue from an arbitrary state of the invariant, assert invariant and strictly smaller window on the next arrival, stop): DFCC cannot attach a loop contract to a loop nested in the 'goto retry' loop, and plain unwinding of a binary search is exponential for SAT",
+  "after el = get_refcount_el(..) a ghost statement asserts that el is the entry at the lower bound of the key and re-assigns el that same address in typed form (points-to precision only)",
+  "needs the ghost anchors of hooks-pending/ds.diff in e2fsck/ea_refcount.c",
   "realloc / memmove of the list by ghost-index specifications (C standard semantics at the ghost index, rest of the object havocked)",
-  "scenario 'grow': count == size on entry and refcount_collapse (replaced by its contract, see ea_collapse_B4) drops nothing; the complementary outcome ('shrink': an entry was dropped, the code jumps back to 'retry' and starts over on the collapsed list, which has room) exceeds the memory limit as one query; it is the composition of a lookup (frame: ea_refcount_fetch), the collapse contract and the 'room' scenario, and is exercised with the real code on small lists by ea_sequence_B; the 'goto retry' back edge is then never taken (unwinding assertion)",
+  "scenario 'grow': count == size on entry and refcount_collapse (replaced by its contract, see ea_collapse_B4) drops nothing; the complementary outcome ('shrink': an entry was dropped, the code jumps back to 'retry' and starts over on the collapsed list, which has room) exceeds the memory limit as one query; it is the composition of a lookup (frame: ea_refcount_fetch), the collapse contract and the 'room' scenario, and is exercised with the real code on small lists by ea_full_list_B3; the 'goto retry' back edge is then never taken (unwinding assertion)",
   "the contract of the operation is stated by the harness (ASSUME precondition, CHECK postconditions) \u2014 no frame (assigns) obligations in this unit: enforcing the frame on the insertion paths exceeds the memory limit; the frame of the lookup paths is checked by ea_refcount_fetch / ea_refcount_decrement"
  ],
- "native": false
+ "native": false,
+ "backend": "cadical"
 }
 */
 #include "ea_common.h"
